@@ -459,6 +459,8 @@ def make_train(rng, kind):
                     want = FS_J
             out.append((v, n))
         train = out
+        if want == FS_J and pairs == 2:
+            marks.append("tail_must_not_be_j")           # a long J after the train would legally complete the third pair
     else:
         for _ in range(4):
             train += [(FS_K, good()), (FS_J, good())]
@@ -501,13 +503,15 @@ async def run_handshake(d, kind, busy=False, restr_games=True):
         d.set("line", SE0)
     train, marks = make_train(rng, kind)
     for m in marks:
-        d.mark(m)
+        if m != "tail_must_not_be_j":
+            d.mark(m)
     for v, n in train:
         if not d.in_chirp_mode():
             break
         await d.line(v, n)
     if kind == "partial":
-        d.set("line", rng.choice([SE0, SE0, FS_J, FS_K]))
+        tail = [SE0, SE0, FS_K] + ([] if "tail_must_not_be_j" in marks else [FS_J])
+        d.set("line", rng.choice(tail))
         await d.until(p_not_chirp_mode, T_2P5MS + 400)
         d.mark("timeout_wait")
     else:
@@ -543,6 +547,7 @@ async def fs_suspend(d, variant=None):
     if variant is None:
         variant = rng.choice(["plain", "split", "split", "wrong_prefix", "wrong_prefix", "wrong_prefix"])
     other = [x for x in (FS_J, FS_K, SE1) if x != idle]
+    other += [FS_J + FS_K - idle] * 3            # mostly the J of the other speed (= the K of this one)
     if variant == "wrong_only":
         d.mark("wrong_idle")
         await d.line(rng.choice(other), T_3MS + rng.randint(100, 800))
@@ -716,6 +721,8 @@ async def session_playground(d):
         d.set("disc", 1); await d.wait(rng.randint(1, 400)); d.set("disc", 0); await d.wait(T_2P5US + 30)
         d.set("line", d.idle()); await d.wait(10)
     variant = rng.choice(["plain", "near", "split", "split", "wrong_prefix", "wrong_prefix", "wrong_prefix", "wrong_only", "wrong_only"])
+    if mode == "ls" and rng.random() < 0.25:
+        variant = "wrong_only"
     d.res.desc["long"] = [variant]
     await after_suspend_attempt(d, await fs_suspend(d, variant))
     await se0_probes(d, rng.randint(3, 8), T_5US, allow_reset=True)
@@ -1186,6 +1193,8 @@ def workload_bins(res, d, out_tr, info, end):
     for t in m.get("wrong_idle", []):
         if not susp.any_in(t, t + T_3MS + 50, bool):
             res.bin("non_idle_3ms_no_suspend")
+            if out_tr["speed"].at(t) == SPD_LS:
+                res.bin("non_idle_3ms_no_suspend_ls")
     for t in m.get("wrong_prefix", []):
         res.bin("non_idle_prefix_before_idle_ls" if out_tr["speed"].at(t) == SPD_LS else "non_idle_prefix_before_idle_fs")
     for t in m.get("restr_in_handshake", []):
